@@ -97,3 +97,18 @@ package engine
 //@   callee (*engine.StorageEngine).processAddrDelete
 //@   requires [no_removal_of_an_object_with_a_live_lock] !engineFoundLiveLock(a0)
 //@   requires [no_removal_without_a_completed_lock_check] engineFoundNoLock(a0)
+
+// ---- C04 (merge over the shards): the shards' pages are merged by numeric comparison of the
+// first attribute exactly when one is requested and the first filter is a numeric one - also
+// for the filters whose bound every integer satisfies (their preprocessed form carries no
+// value, the operation says what they are).
+//@ ghost pred firstFilterIsNumeric() bool
+//@ callrule c04_first_filter_kind in (*StorageEngine).Search
+//@   property C04
+//@   callee object.IsIntegerSearchOp
+//@   pureeffect
+//@   defines result == firstFilterIsNumeric()
+//@ callrule c04_merge_compares_integers_for_a_numeric_first_filter in (*StorageEngine).Search
+//@   property C04
+//@   callee object.MergeSearchResults
+//@   requires [numeric_merge_iff_attribute_requested_and_numeric_filter] a2 == (len(a1) > 0 && firstFilterIsNumeric())
